@@ -40,7 +40,8 @@ class TxIn:
         return cls(*parse_struct("#LSL", f))
 
     def is_coinbase(self) -> bool:
-        return self.previous_hash == ZERO
+        # the null outpoint: zero hash and index 0xffffffff
+        return self.previous_hash == ZERO and self.previous_index == 4294967295
 
     def public_key_sec(self) -> bytes | None:
         """Return the public key as sec, or None in case of failure."""
